@@ -472,4 +472,27 @@ theorem commitAll_cur (ts : List Transition) (w : World)
       have : m ≠ t.mgr := fun e => hm t (by simp) e.symm
       simp [this]
 
+/-- `Transaction.Commit` applies the transitions in the order they were added: committing `ts ++ [t]` is committing
+`ts` first and `t` last (so e.g. trace.introducePart publishes the core snapshot before the sidx snapshots, and
+introduceFlushedForSync / introduceSync the sidx snapshots before the core one). -/
+theorem commitAll_append (w : World) (ts : List Transition) (t : Transition) :
+    (commitAll w (ts ++ [t])).1 = (tCommit (commitAll w ts).1 t).1 ∧
+    (commitAll w (ts ++ [t])).2 = (commitAll w ts).2 ++ [(tCommit (commitAll w ts).1 t).2] := by
+  induction ts generalizing w with
+  | nil => simp [commitAll]
+  | cons a ts ih =>
+    simp only [List.cons_append, commitAll]
+    obtain ⟨h1, h2⟩ := ih (tCommit w a).1
+    exact ⟨h1, by rw [h2]⟩
+
+/-- the publication order a commit produces (managers in the order `ReplaceSnapshot` reaches them) -/
+def commitOrder (ts : List Transition) : List Nat := (ts.filter fun t => !t.committed).map fun t => t.mgr
+
+/-- two transitions on the SAME manager: the one added last wins (a LIFO commit would leave the first one) -/
+theorem commitAll_last_wins (w : World) (ts : List Transition) (t : Transition) (ht : t.committed = false) :
+    (commitAll w (ts ++ [t])).1.cur t.mgr = t.next := by
+  rw [(commitAll_append w ts t).1]
+  unfold tCommit
+  simp [ht, replaceSnapshot]
+
 end Banyan.C05.Txn
